@@ -18,6 +18,11 @@ Histories per project
              the wrong type / last install script exits non-zero); everything created - directories too - is in the
              log and uninstall restores the pre-install snapshot
   (coincide) extra data-only projects whose absolute install dirs / prefix textually start with their DESTDIR
+  (failed optional subproject) ~45% of the projects + one directed probe ask for an OPTIONAL subproject (required: false,
+             dependency fallback by keyword/name/wrap [provide], version: not met) that declares install rules of every
+             kind and THEN fails (error, assert, missing dependency/program, version): it is not part of the build - every
+             history above expects exactly the parent's tree/log; after setup intro-install_plan.json / intro-installed.json
+             must not list anything of a subproject that is not in the build
   combo      (thorough) --tags + --skip-subprojects + --quiet
   strace     (thorough; <=4 projects in quick) cold `meson install [--strip]` under strace -f: every mutating
              syscall of every process beneath DESTDIR (or meson-logs)
@@ -319,9 +324,15 @@ def check_installed(ctx: Ctx, dd: Dest, o: Obs, expected: T.Mapping[str, dict], 
     if expected and fresh and not dd.precreated and umask != 'preserve':
         root_mode = 0o777 & ~int(umask, 8)
     v, c = A.check_tree(o.dest, expected, optional, ctx.src_snap, ctx.build_snap, check_root_mode=root_mode, stripped=stripped)
+    ghost = ghost_hints(ctx.spec)
     for m, w in v:
         if m == 'tree:unexpected' and excluded_hints and w['path'] in excluded_hints:
             w['hint'] = excluded_hints[w['path']]
+        elif m == 'tree:unexpected' and ghost:
+            gp = w['path']
+            hit = ghost.get(gp) or next((h for q, h in sorted(ghost.items()) if q.startswith(gp + '/') or gp.startswith(q + '/')), None)
+            if hit:
+                w['hint'] = hit
         if (m.startswith('tree:missing:') and tags is not None and isinstance(w.get('expected'), dict) and w['expected'].get('tag') in tags
                 and refine(m, w, ctx.spec) == m):   # a narrower classifier (rule-specific cause) wins
             # the object carries one of the requested tags (explicit or documented default) and was left out
@@ -341,6 +352,59 @@ def check_installed(ctx: Ctx, dd: Dest, o: Obs, expected: T.Mapping[str, dict], 
     ctx.count('monitor:log-created-paths', c2['created'])
     ctx.count('monitor:log-names', c2['named'])
     ctx.count('monitor:log-checked')
+
+
+def ghost_hints(spec: dict) -> T.Dict[str, str]:
+    """Logical paths declared by an optional subproject that failed (not part of the build) -> mechanism key."""
+    out: T.Dict[str, str] = {}
+    for gh in spec.get('ghosts') or []:
+        for e in gh['entries']:
+            out[e['path']] = f'failed-subproject:rules-carried-out:{e["kind"]}'
+    return out
+
+
+def check_failed_subprojects(ctx: Ctx, setup_output: str) -> None:
+    """After `meson setup`: every optional subproject of the generator that fails really ran up to its last rule and
+    was discarded (setup went on); the install plan / installed map list nothing of a subproject that is not part of the build."""
+    spec = ctx.spec
+    ghosts = spec.get('ghosts') or []
+    ctx.history, ctx.step, ctx.form = 'setup', 'introspection files after setup', ''
+    for gh in ghosts:
+        if f'{G.GHOST_MARK}:{gh["name"]}' in setup_output:
+            ctx.count('monitor:failed-subproject-declared-rules-then-failed')
+            ctx.count(f'failed-subproject:caller:{gh["caller"]}')
+            ctx.count(f'failed-subproject:failure:{gh["failure"]}')
+            ctx.count('monitor:failed-subproject-discarded-rules', len(gh['entries']))
+            for k in gh['declared']:
+                ctx.count(f'failed-subproject:declares:{k}')
+        else:
+            ctx.inconclusive.append('failed-subproject-not-reached')
+    in_build = set(spec.get('subprojects_in_build') or []) | {None, ''}
+    gpaths = ghost_hints(spec)
+    info = os.path.join(ctx.bdir, 'meson-info')
+    try:
+        with open(os.path.join(info, 'intro-install_plan.json'), encoding='utf-8') as f:
+            plan = json.load(f)
+        with open(os.path.join(info, 'intro-installed.json'), encoding='utf-8') as f:
+            installed = json.load(f)
+    except (OSError, ValueError):
+        ctx.inconclusive.append('install-plan-unreadable')
+        return
+    n = 0
+    for kind, items in plan.items():
+        for src, ent in items.items():
+            n += 1
+            sub = ent.get('subproject')
+            if 'subprojects_in_build' in spec and sub not in in_build:
+                ctx.add(f'install-plan:lists-subproject-not-in-build:{kind}', {'plan_kind': kind, 'source': src, 'entry': None, 'plan_entry': ent,
+                                                                               'failed_subprojects': [g['name'] for g in ghosts]})
+    ctx.count('monitor:install-plan-entries', n)
+    for src, dst in installed.items():
+        ctx.count('monitor:intro-installed-entries')
+        lp = os.path.normpath(dst)
+        if lp in gpaths:
+            ctx.add('intro-installed:' + gpaths[lp], {'source': src, 'destination': dst})
+    ctx.history = ctx.step = ''
 
 
 def do_uninstall(ctx: Ctx, dd: Dest, pre: T.Mapping[str, list], expected: T.Mapping[str, dict], dirs_may_remain: bool = False) -> None:
@@ -852,6 +916,7 @@ def run_project(task: T.Tuple[dict, str, float, T.List[str], str]) -> dict:
                         if not (fixed and (A.Zones.under(fixed, lp) or A.Zones.under(lp, fixed)))}
         ctx.count('projects')
         ctx.count(f'projects:{spec["kind"]}')
+        check_failed_subprojects(ctx, r.out + r.err)
         for h in histories:
             if time.time() > deadline:
                 ctx.count('skipped:time-budget')
@@ -969,7 +1034,9 @@ def main() -> int:
                  ('monitor:strace-mutating-syscalls', 50), ('projects-built-with-mini-ninja', 4),
                  ('monitor:kill-runs', 20), ('monitor:kill-created-nondirs', 100), ('monitor:kill-by-script-runs', 3),
                  ('monitor:kill-uninstall-compared', 20), ('monitor:abort-runs', 15), ('monitor:abort-created-dirs', 30),
-                 ('monitor:abort-uninstall-compared', 15), ('history-on-coincide-project', 8)):
+                 ('monitor:abort-uninstall-compared', 15), ('history-on-coincide-project', 8),
+                 ('monitor:failed-subproject-declared-rules-then-failed', 6), ('monitor:failed-subproject-discarded-rules', 40),
+                 ('monitor:install-plan-entries', 100)):
         chk.require(k, n)
     return chk.finish(
         rule='one case = (generated project, history, DESTDIR form); distinct by (project kind, feature set, history, DESTDIR form, '
